@@ -711,6 +711,13 @@ def materialise(prog):
                 if inj["err"]:
                     res.append("error")
                 rsig = res[0] if len(res) == 1 else "(" + ", ".join(res) + ")"
+                rn = inj.get("resnames")
+                if rn:
+                    # named results in the template (legal; the generated injector need not keep the names, but whatever it does
+                    # with them must not interfere with the variables it invents)
+                    taken = set(names) | {prog.qual(q) for q in body_used} | {"wire", "new", "panic"}
+                    rn = [x if x not in taken else "r%d" % n for n, x in enumerate(rn[:len(res)])]
+                    rsig = "(" + ", ".join("%s %s" % (x, t) for x, t in zip(rn, res)) + ")"
                 k, i = inj["out"]
                 zero = {"v": T(u, ("v", i), inj_used) + "{}" if k == "v" else "", "p": "nil", "i": "nil", "s": "nil"}[k]
                 rets = [zero] + (["nil"] if inj["cleanup"] else []) + (["nil"] if inj["err"] else [])
